@@ -7,13 +7,15 @@
 //!        "log","reset","stop","ru","lu","th","ips":[cidr…]}   (every key but id/rank optional; missing = null)
 //!   optional "ip": client address of the request (router mode; with "ips" it replays defect D1: a rule matched
 //!   through two of its ip ranges must reach the action once — oracle `dup-match`)
-//! obs:  {"action": serde_json(Action::from_routes_rule), "codes":[{"c":code,"ops":[{"op","r","ids"}…]}…]}
+//! obs:  {"action": serde_json(Action::from_routes_rule), "codes":[{"c":code,"ops":[{"op","r","ids"}…]}…],
+//!        "trace": null | [{"id": rule id, "action": cumulative action}…]}   ("router" mode with pairwise distinct ranks:
+//!        TraceAction::from_trace_rules(router.trace_request(q), q), C17 clause 3)
 //!   per response code the observers run in the given sequence on a fresh clone of the action;
 //!   "ids" = get_applied_rule_ids() after the call, in LinkedHashSet order.
 //! The rules are real `api::Rule`s (serde), turned into routes by `IntoRoute` ("direct": the match vector is
 //! the case order) or inserted into a real `Router` in case order and matched ("router").
 #![allow(dead_code)]
-use redirectionio::action::{Action, UnitTrace};
+use redirectionio::action::{Action, TraceAction, UnitTrace};
 use redirectionio::api::Rule;
 use redirectionio::http::{Header, PathAndQueryWithSkipped, Request};
 use redirectionio::router::{IntoRoute, Route, Router};
@@ -172,7 +174,18 @@ fn gen_case(rng: &mut Prng) -> Value {
     if via == "direct" && n >= 2 && rng.chance(1, 25) {
         ids[n - 1] = ids[0].clone();
     }
-    let rules: Vec<Value> = ids.iter().enumerate().map(|(ri, id)| gen_rule(rng, id, ri, !ov.is_null(), allow_html)).collect();
+    let mut rules: Vec<Value> = ids.iter().enumerate().map(|(ri, id)| gen_rule(rng, id, ri, !ov.is_null(), allow_html)).collect();
+    if via == "router" && rng.chance(1, 2) {
+        // tie-free ranks (a random permutation of 0..n, sometimes shifted to the top of the range): the action trace is observed
+        let mut perm: Vec<u64> = (0..n as u64).collect();
+        for i in (1..n).rev() {
+            perm.swap(i, rng.below(i + 1));
+        }
+        let shift = if rng.chance(1, 4) { 65535 - n as u64 + 1 } else { 0 };
+        for (r, k) in rules.iter_mut().zip(perm) {
+            r["rank"] = json!(k + shift);
+        }
+    }
     let ops: Vec<Value> = if rng.chance(1, 2) {
         vec![json!({"op":"status"}), json!({"op":"headers"}), json!({"op":"body"}), json!({"op":"log"})]
     } else {
@@ -373,12 +386,17 @@ pub fn request(case: &Value, config: Option<&RouterConfig>) -> Result<Request, S
 
 /// Routes of the match vector, in case order ("direct") or as the real router returns them ("router").
 pub fn routes_of(case: &Value, rules: Vec<Rule>) -> Result<(Vec<Arc<Route<Rule>>>, Request), String> {
+    routes_and_router(case, rules).map(|(routes, request, _)| (routes, request))
+}
+
+/// Same, and the router itself in "router" mode (for the action trace).
+pub fn routes_and_router(case: &Value, rules: Vec<Rule>) -> Result<(Vec<Arc<Route<Rule>>>, Request, Option<Router<Rule>>), String> {
     let via = s(case, "via").unwrap_or_else(|| "direct".to_string());
     let config = RouterConfig::default();
     match via.as_str() {
         "direct" => {
             let request = request(case, None)?;
-            Ok((rules.into_iter().map(|r| Arc::new(r.into_route(&config))).collect(), request))
+            Ok((rules.into_iter().map(|r| Arc::new(r.into_route(&config))).collect(), request, None))
         }
         "router" => {
             let mut ids: Vec<&str> = rules.iter().map(|r| r.id.as_str()).collect();
@@ -397,7 +415,7 @@ pub fn routes_of(case: &Value, rules: Vec<Rule>) -> Result<(Vec<Arc<Route<Rule>>
             if routes.len() < n {
                 return Err(format!("router matched {} of {} rules (the case is about matched rules only)", routes.len(), n));
             }
-            Ok((routes, request))
+            Ok((routes, request, Some(router)))
         }
         _ => Err("via".into()),
     }
@@ -535,9 +553,26 @@ fn run(case: &Value) -> Obs {
         }
         t
     };
-    let (routes, request) = match routes_of(case, rules) {
+    let distinct_ranks = {
+        let mut ranks: Vec<u16> = rules.iter().map(|r| r.rank).collect();
+        ranks.sort();
+        ranks.dedup();
+        ranks.len() == n_rules
+    };
+    let (routes, request, router) = match routes_and_router(case, rules) {
         Ok(x) => x,
         Err(e) => return Obs::invalid(&e),
+    };
+    // the action trace (explain): TraceAction::from_trace_rules on the real traces of the router.  Observed when
+    // the ranks are pairwise distinct (otherwise its order among ties is the traversal order of the trace).
+    let trace_obs = match (&router, distinct_ranks) {
+        (Some(router), true) => {
+            let traces = router.trace_request(&request);
+            let steps = TraceAction::from_trace_rules(&traces, &request);
+            let v = serde_json::to_value(&steps).unwrap();
+            Value::Array(v.as_array().unwrap().iter().map(|t| json!({"id": t["rule"]["id"], "action": t["action"]})).collect())
+        }
+        _ => Value::Null,
     };
     let dup_match = {
         let mut ids: Vec<&str> = routes.iter().map(|r| r.id()).collect();
@@ -584,7 +619,11 @@ fn run(case: &Value) -> Obs {
         }
         per_code.push(json!({"c": c, "ops": out}));
     }
-    let mut o = Obs::new(json!({"action": action_json, "codes": per_code})).trivial(n_rules < 2);
+    let traced = !trace_obs.is_null();
+    let mut o = Obs::new(json!({"action": action_json, "codes": per_code, "trace": trace_obs})).trivial(n_rules < 2);
+    if traced {
+        o.tags.push("action-trace".to_string());
+    }
     o.tags.push(format!("rules:{n_rules}"));
     o.tags.push(format!("via:{}", s(case, "via").unwrap_or_else(|| "direct".to_string())));
     o.tags.extend(flags);
